@@ -57,6 +57,11 @@ LEAVES = [
     L("pl.ab", [["plain", []], ["ab", []]], "string", S, fam=["core"]),
     L("pl.s", [["plain", []], ["sub", []], ["s", []]], "string", S, fam=["core"]),
     L("pl.n", [["plain", []], ["n", []]], "uint16", ["u:1", "u:10"], fam=["valid", "cross"], bad=[["u:11", "range"]]),
+    # must statements with a signed operand, and onto a default below a container nobody instantiates
+    L("pl.lim", [["plain", []], ["lim", []]], "int8", ["i:-7", "i:3"], fam=["mustx"]),
+    L("pl.lcheck", [["plain", []], ["lcheck", []]], "boolean", ["b:true"], fam=["mustx"]),
+    L("pl.gcheck", [["plain", []], ["gcheck", []]], "boolean", ["b:true"], fam=["mustx"]),
+    L("g.limit", [["glob", []], ["limit", []]], "uint8", ["u:1", "u:5"], default="u:2", fam=["mustx"]),
     # sys: constraints, defaults, presence, second namespace
     L("s.host", [["sys", []], ["host", []]], "string", ["s:abc", "s:h2"], fam=["valid", "dflt", "cross"], bad=[["s:abcdefghij", "length"], ["s:1abc", "pattern"]]),
     L("s.hostname", [["sys", []], ["hostname", []]], "string", S, fam=["valid"]),
